@@ -34,33 +34,47 @@ def _root_.MgModel.C18.SockH.wf (s : SockH) : Prop :=
   s.q = .own ∧ s.mtx = .own ∧ s.queue.wf ∧ s.queue.table = .null
 
 theorem sockhDestroy_wf (s : SockH) (h : Heap) (hs : s.wf) :
-    ∃ h', sockhDestroy s h = .ok ({}, h') ∧ h'.mem = h.mem - s.owned ∧ h'.fds = h.fds ∧ h'.inj = h.inj := by
+    ∃ h', sockhDestroy s h = .ok ({}, h') ∧ h'.mem = h.mem - s.owned ∧ h'.fds = h.fds - s.ownedFd ∧
+      h'.inj = h.inj := by
   obtain ⟨h1, h2, h3, h4⟩ := hs
-  obtain ⟨c', hh, hr, hm, hf, hn, hi⟩ := ncDestroy_spec s.queue
-    { mem := h.mem - 1, fds := h.fds, nacq := h.nacq, inj := h.inj } h3 h4
-  simp [sockhDestroy, h1, h2, hr, free, deref, bind, Except.bind, pure, Except.pure, SockH.owned]
-  simp at hm hf hi
+  obtain ⟨c1, hh1, hr1, hw1, hm1, hf1, hn1, hi1, hz1, ht1, _⟩ := ncClear_spec s.queue
+    { mem := h.mem - s.queue.size, fds := h.fds - s.queue.size, nacq := h.nacq, inj := h.inj } h3
+  obtain ⟨c2, hh2, hr2, hm2, hf2, hn2, hi2⟩ := ncDestroy_spec c1
+    { mem := hh1.mem - 1, fds := hh1.fds, nacq := hh1.nacq, inj := hh1.inj } hw1 (by rw [ht1, h4])
+  simp [sockhDestroy, h1, h2, hr1, hr2, free, deref, bind, Except.bind, pure, Except.pure, SockH.owned,
+    SockH.ownedFd]
+  simp at hm1 hf1 hi1 hm2 hf2 hi2
   refine ⟨?_, ?_, ?_⟩ <;> omega
 
 theorem sockhDestroy_empty (h : Heap) : sockhDestroy {} h = .ok ({}, h) := by
   simp [sockhDestroy, free, bind, Except.bind, pure, Except.pure]
 
-/-- `muggle_socket_evloop_add_ctx` on an initialised handle -/
+/-- hand-over of a caller-made context with `muggle_socket_evloop_add_ctx` on an initialised
+handle: on success the handle owns one more node, block and descriptor; on failure the handle is
+unchanged and the caller has released its context: live counts as before -/
 theorem sockhAddCtx_contract (f : Sched) (s : SockH) (h : Heap) (hs : s.wf) :
-    OpContractS SockH.wf SockH.owned zeroFd s h (sockhAddCtx f s h) := by
+    OpContractS SockH.wf SockH.owned SockH.ownedFd s h (sockhAddCtx f s h) := by
   obtain ⟨h1, h2, h3, h4⟩ := hs
-  obtain ⟨c1, ok, hh1, hr, ⟨hw1, hm1, hf1, hn1, hi1, hc1⟩, hsame, _, _, ht1, _, _⟩ := ncAllocNode_spec f s.queue h h3
+  obtain ⟨c1, ok, hh1, hr, ⟨hw1, hm1, hf1, hn1, hi1, hc1⟩, hsame, _, _, ht1, _, hsz⟩ :=
+    ncAllocNode_spec f s.queue { mem := h.mem + 1, fds := h.fds + 1, nacq := h.nacq, inj := h.inj } h3
   have hd1 : deref s.q = .ok () := by rw [h1]; rfl
   have hd2 : deref s.mtx = .ok () := by rw [h2]; rfl
   unfold sockhAddCtx
   rw [hd1, hd2]
   simp only [ncInsert, hr]
-  refine ⟨_, ok, hh1, rfl, ⟨⟨h1, h2, hw1, by rw [ht1, h4]⟩, ?_, hf1, hn1, hi1, hc1⟩, ?_⟩
-  · simp only [SockH.owned]; omega
-  · intro hk
-    have := hsame hk
+  simp at hm1 hf1 hn1 hi1 hc1
+  cases ok with
+  | true =>
+    simp at hsz
+    refine ⟨_, true, hh1, rfl, ⟨⟨h1, h2, hw1, by rw [ht1, h4]⟩, ?_, ?_, hn1, hi1, by simpa using hc1⟩, by simp⟩
+    · simp only [SockH.owned, hsz]; omega
+    · simp only [SockH.ownedFd, hsz]; omega
+  | false =>
+    have := hsame rfl
     subst this
-    rfl
+    refine ⟨_, false, _, rfl, ⟨⟨h1, h2, h3, h4⟩, ?_, ?_, hn1, hi1, by simp⟩, fun _ => rfl⟩
+    · simp only [SockH.owned]; omega
+    · simp only [SockH.ownedFd]; omega
 
 /-! ## socket event-loop pipe, socket -/
 
